@@ -122,13 +122,13 @@ theorem newPhrase_ok {sh : Shared D L} (h : ShInv env G sh) {k : Nat} (hs : sh.c
   have hced : CedInv sh.com.pushCursor.clampCursor := ced_clampCursor (ced_pushCursor h.ced)
   unfold newPhrase
   dsimp only
-  obtain ⟨p, hq, p1, p2, p3, p4, p5⟩ := init_ok (env := env) (!sh.options.phraseChoiceRearward) sh.options.lookupStrategy
+  obtain ⟨p, hq, p1, p2, p3, p4, p5, p6, _, _⟩ := init_ok (env := env) (!sh.options.phraseChoiceRearward) sh.options.lookupStrategy
     sh.com.pushCursor.clampCursor.inner sh.com.pushCursor.clampCursor.cursor sh.dict
     (by rw [c1]; exact c2) ⟨k, by rw [c1]; exact c3⟩ (fun c hc => (h.word c (by rw [c1] at hc; exact hc)).2)
   rw [hq]
   refine stepOK_to (h.setComSame hced (by rw [c1])) _ ⟨?_, fun _ => .inl ⟨p, rfl⟩⟩
   show PhraseOK env _ p
-  refine ⟨p1, p3, by rw [p1]; exact p4, by rw [p1]; exact p5, ?_⟩
+  refine ⟨p1, p3, by rw [p1]; exact p4, by rw [p1]; exact p5, ?_, p6⟩
   intro c hc
   rw [p2]
   rw [p1, c1] at hc
@@ -331,12 +331,12 @@ theorem newPhraseSimple_ok {sh : Shared D L} (h : ShInv env G sh) {k : Nat} (h0 
     (hs : sh.com.inner.symbols[sh.com.cursor - 1]? = some (Sym.syl k)) : StepOK env G (newPhraseSimple sh) := by
   unfold newPhraseSimple
   dsimp only
-  obtain ⟨p, hq, p1, p2, p3, p4, p5⟩ := initSingleWord_ok sh.options.lookupStrategy sh.com.pushCursor.inner
+  obtain ⟨p, hq, p1, p2, p3, p4, p5, p6⟩ := initSingleWord_ok sh.options.lookupStrategy sh.com.pushCursor.inner
     sh.com.pushCursor.cursor h0 h.ced.cur ⟨k, hs⟩
   rw [hq]
   refine stepOK_to (h.setComSame (ced_pushCursor h.ced) rfl) _ ⟨?_, fun _ => .inl ⟨p, rfl⟩⟩
   show PhraseOK env _ p
-  refine ⟨p1, p3, by rw [p1]; exact p4, by rw [p1]; exact p5, ?_⟩
+  refine ⟨p1, p3, by rw [p1]; exact p4, by rw [p1]; exact p5, ?_, p6⟩
   intro c hc
   rw [p2]
   rw [p1] at hc
